@@ -25,7 +25,8 @@ F = ['sdc11073.mdib.providermdib.ProviderMdib._transaction_manager', 'sdc11073.m
      'sdc11073.mdib.transactions._TransactionBase._handle_state_updates', 'sdc11073.mdib.mdibbase.EntityGetter._mk_entity',
      'sdc11073.provider.periodicreports.PeriodicReportsHandler._store_for_periodic_report',
      'sdc11073.provider.providerimpl.SdcProvider._send_episodic_reports']
-AK = ['metric', 'context_patient', 'context_location', 'descriptor', 'metric_entity', 'context_entity']
+AK = ['metric', 'context_patient', 'context_location', 'descriptor', 'metric_entity', 'context_entity', 'recreate_removed_descriptor',
+      'recreate_removed_context_state']
 RC = ['unknown_state_handle', 'wrong_state_type', 'get_state_twice', 'unknown_descriptor', 'add_existing_descriptor',
       'mk_context_state_existing_handle', 'mk_context_state_non_context_descriptor', 'get_state_without_descriptor',
       'remove_then_get_state']
@@ -38,8 +39,10 @@ def obligations(tier):
     obs = []
     for i, n in enumerate(AK):
         obs.append(Ob(f'C03.aborted.{n}', 'harness.C03', 'aborted', bind={'kind': i}, timeout=t, functions=F, stubs=STUBS,
-                      bounds='crash point in 0..3 (symbolic), symbolic str <= 3 written to nested members, mv, sv in N',
-                      claim='an aborted transaction leaves the full snapshot (all nesting depths), versions, indices unchanged; no report'))
+                      bounds='crash point in 0..3 (symbolic), symbolic str <= 3 written to nested members, list members empty or filled '
+                             '(symbolic), mv, sv in N',
+                      claim='an aborted transaction leaves the full snapshot (all nesting depths), versions, indices and the remembered versions '
+                            'of removed objects unchanged; no report'))
     for i, n in enumerate(RC):
         obs.append(Ob(f'C03.rejected.{n}', 'harness.C03', 'rejected', bind={'case': i}, timeout=t, functions=F, stubs=STUBS,
                       bounds='one valid modification, then the rejected call; symbolic mv, sv, str <= 2',
